@@ -3,6 +3,7 @@ package main
 import (
 	"fmt"
 	"math"
+	"math/big"
 	"strings"
 
 	"github.com/db47h/decimal"
@@ -134,13 +135,25 @@ func genHist(prop string, seed uint64, tier string) *Scenario {
 				sc.Vars[i].Prec = 1
 			}
 		}
+		if focus == "sqrt" && r.chance(0.6) {
+			// exact roots and exact ties: the root has p or p+1 digits (the last one a
+			// 5) for the receivers' precision p, the operand is its square (or next to it)
+			p := r.pick(1, 2, 3, 5, 7, 16, 19, 20, 34, r.rangeI(1, 60))
+			for i := 0; i < 2; i++ {
+				sc.Vars[i] = sqrtTieVar(r, p)
+			}
+			for i := 2; i < nv; i++ {
+				sc.Vars[i].Prec = uint32(p)
+				sc.Vars[i].Mode = uint8(r.intn(6))
+			}
+		}
 		switch focus {
 		case "div":
 			menu = []string{"Quo", "Quo", "Quo", "Quo", "Set", "SetPrec", "Mul"}
 		case "mul":
 			menu = []string{"Mul", "Mul", "Mul", "FMA", "Set", "SetPrec"}
 		case "sqrt":
-			menu = []string{"Sqrt", "Sqrt", "Mul", "Set", "SetPrec"}
+			menu = []string{"Sqrt", "Sqrt", "Sqrt", "Mul", "Set", "SetMode", "Add"}
 		}
 	}
 	if focus == "" && r.chance(0.04) {
@@ -297,6 +310,33 @@ var f64Edges = []float64{0, math.Copysign(0, -1), 1, -1, 0.1, 0.5, 1e-5, 1234567
 	math.SmallestNonzeroFloat64, 2.2250738585072014e-308, math.Inf(1), math.Inf(-1), 1 << 53, 1<<53 + 2, 9.999999999999999e22, 1e23}
 
 // genParams draws the non-variable parameters for the full op menu.
+// sqrtTieVar returns a positive value whose square root is exact at p digits,
+// an exact tie at p digits (p+1 digits, the last one 5), or next to one.
+func sqrtTieVar(r rng, p int) VarSpec {
+	nd := r.pick(p, p+1, p+1, p+1, p-1, p+2)
+	if nd < 1 {
+		nd = 1
+	}
+	var sb strings.Builder
+	sb.WriteByte(byte('1' + r.intn(9)))
+	for k := 1; k < nd; k++ {
+		sb.WriteByte(byte('0' + r.intn(10)))
+	}
+	hs := sb.String()
+	if nd == p+1 && r.chance(0.75) {
+		hs = hs[:nd-1] + "5"
+	}
+	h, _ := new(big.Int).SetString(hs, 10)
+	x := new(big.Int).Mul(h, h)
+	x.Add(x, big.NewInt(int64(r.pick(0, 0, 0, 0, 1, -1))))
+	if x.Sign() <= 0 {
+		x.SetInt64(1)
+	}
+	w := bigToWords(x)
+	// an even shift of the exponent keeps the root a shifted copy of h
+	return VarSpec{Form: 1, Words: w, Exp: int32(len(x.String()) + 2*r.rangeI(-4, 4)), Prec: uint32(len(w) * wordDigits), Mode: uint8(r.intn(6))}
+}
+
 func isCtxFactory(name string) bool {
 	for _, n := range ctxNew {
 		if n == name {
@@ -386,6 +426,11 @@ func genParams(r rng, sc *Scenario, op *Op) {
 	case "UnmarshalJSON":
 		if r.chance(0.5) {
 			op.S = parseLit(r, 10)
+			if strings.TrimSpace(op.S) == "null" {
+				// a bare JSON null never reaches the library (encoding/json leaves
+				// the destination alone): send it as a string instead
+				op.S = "\"null\""
+			}
 		} else {
 			op.S = "\"" + parseLit(r, 10) + "\""
 		}
@@ -427,7 +472,10 @@ func bigIntLit(r rng) string {
 func parseLit(r rng, base int) string {
 	switch r.intn(12) {
 	case 0:
-		return r.pickS("Inf", "+Inf", "-Inf", "inf", "-inf", "infinity", "NaN", "", "+", "-", ".", "e5", "0x", "1e", "1_", "_1", "1__2", "1e+", "--1", "1.2.3", "0b102", "1p5")
+		// (incl. what the library itself prints for special cases: "<nil>" is
+		// MarshalText of a nil pointer)
+		return r.pickS("Inf", "+Inf", "-Inf", "inf", "-inf", "infinity", "NaN", "", "+", "-", ".", "e5", "0x", "1e", "1_", "_1", "1__2", "1e+", "--1", "1.2.3", "0b102", "1p5",
+			"<nil>", "<nil>", "nil", "null", "0", "-0", "+0", "0e10", "0x0p4", "0_0.0_0")
 	case 1:
 		// non-decimal
 		switch r.intn(4) {
